@@ -91,6 +91,8 @@ func reallocDelta(kind string) resourcetypes.Resources {
 		p["cpu-request"], p["cpu-limit"] = -0.5, -0.5
 	case "mem+":
 		p["memory-request"], p["memory-limit"] = int64(1), int64(1)
+	case "mem++": // one more than what is free on a 4-unit node that holds this 1-unit workload only: fits only if the workload's own share is counted as free
+		p["memory-request"], p["memory-limit"] = int64(4), int64(4)
 	case "mem-":
 		p["memory-request"], p["memory-limit"] = int64(-1), int64(-1)
 	case "keep":
@@ -382,6 +384,8 @@ func (e *Env) Exec(sc *Scenario, b *Built, opID string, watchdog time.Duration) 
 				res = resourcetypes.Resources{"cpumem": resourcetypes.RawParams{"cpu": 1}}
 			case "mem-":
 				res = resourcetypes.Resources{"cpumem": resourcetypes.RawParams{"memory": -1}}
+			case "numa+": // one more core (number 4), placed on NUMA node 0 (the node must have the numa4 layout)
+				res = resourcetypes.Resources{"cpumem": resourcetypes.RawParams{"cpu": fmt.Sprintf("4:%d", e.Cfg.Scheduler.ShareBase), "numa-cpu": []string{"0,1,4", "2,3"}}}
 			}
 			_, err := e.Cal.SetNode(ctx, &coretypes.SetNodeOptions{Nodename: op.Nodes[0], Resources: res, Delta: true, Labels: map[string]string{"l": "v"}})
 			fail(err)
